@@ -35,7 +35,7 @@ ASSUMPTIONS = [
     "len(chunk) <= chunksize and complete consecutive coverage of the yielded chunks are checked",
     "Parquet: the row-group cache size is not observed, only that each group is read once per pass in order",
 ]
-PROBES = ["abandoned_preview_pass", "parquet_groups_aligned_with_chunks", "two_passes", "tail_chunk_shorter", "exact_multiple", "single_chunk", "parquet_group_straddles_chunk", "parallel_mode"]
+PROBES = ["recreation_over_existing_cache", "parquet_nonuniform_row_groups", "abandoned_preview_pass", "parquet_groups_aligned_with_chunks", "two_passes", "tail_chunk_shorter", "exact_multiple", "single_chunk", "parquet_group_straddles_chunk", "parallel_mode"]
 REAL_VS_STUB = dict(
     real="yaw readers, DataChunk, h5py, pyarrow, astropy.io.fits, pandas",
     stub="multiprocessing (sim.fakemp); trace taps: TracedFrame, h5py.Dataset.__getitem__, ParquetFile.read_row_group, DataChunkReader.__next__ wrappers",
@@ -60,6 +60,11 @@ def gen_case(prng: Prng, tier: str) -> dict:
         extra["preview_chunks"] = prng.randint(1, 3)  # abandoned partial pass before the creation
     if source == "parquet" and chunksize is not None and prng.chance(1, 2):
         extra["pq_rowgroup"] = prng.choice([chunksize, max(1, chunksize // 2), 2 * chunksize, 3 * chunksize])
+    elif source == "parquet" and chunksize is not None and prng.chance(1, 2):
+        h = max(1, chunksize // 2)
+        extra["pq_rowgroup"] = [prng.choice([chunksize, 2 * chunksize, chunksize + 1]), h, h, max(1, h - 1), h]
+    if prng.chance(1, 6):
+        extra["prior"], extra["overwrite"] = "catalog_reopened", True  # re-creation over an existing cache
     return dict(
         **extra,
         prop=PROP,
@@ -193,6 +198,8 @@ def check_trace(case: dict, trace: list) -> tuple[dict | None, str | None, dict]
         probes["single_chunk"] = 1
     if case["workers"] > 1:
         probes["parallel_mode"] = 1
+    if case.get("prior"):
+        probes["recreation_over_existing_cache"] = 1
 
     who = sorted({e[0] for e in trace})
     if who not in ([], ["main"]):
@@ -274,6 +281,12 @@ def check_trace(case: dict, trace: list) -> tuple[dict | None, str | None, dict]
         if case.get("pq_rowgroup"):
             probes["parquet_groups_aligned_with_chunks"] = 1
         ngroups = -(-n // rg)
+        if isinstance(case.get("pq_rowgroup"), list):
+            probes["parquet_nonuniform_row_groups"] = 1
+            sizes, pos, ngroups = list(case["pq_rowgroup"]), 0, 0
+            while pos < n:
+                pos += max(1, int(sizes.pop(0) if sizes else case["pq_rowgroup"][-1]))
+                ngroups += 1
         if rg % cs and cs % rg:
             probes["parquet_group_straddles_chunk"] = 1
         real = [g for g in groups if g < ngroups]
